@@ -523,12 +523,16 @@ def build(sim):
         while sim.now < end:
             sim._block(lambda: sim.now >= end, None, "sleep", deadline=end)
 
+    def mono_():
+        # like a real monotonic clock: seconds since an arbitrary start (the "boot"), NOT comparable with time.time()
+        return sim.now - sim.t0 + 4321.0
+
     tm.time = time_
-    tm.monotonic = time_
-    tm.perf_counter = time_
+    tm.monotonic = mono_
+    tm.perf_counter = mono_
     tm.time_ns = lambda: int(sim.now * 1_000_000_000)
-    tm.monotonic_ns = tm.time_ns
-    tm.perf_counter_ns = tm.time_ns
+    tm.monotonic_ns = lambda: int(mono_() * 1_000_000_000)
+    tm.perf_counter_ns = tm.monotonic_ns
     tm.sleep = sleep
     tm.gmtime = lambda s=None: _rtime.gmtime(sim.now if s is None else s)
     tm.localtime = lambda s=None: _rtime.localtime(sim.now if s is None else s)
